@@ -5,6 +5,22 @@ V = os.path.dirname(os.path.dirname(os.path.abspath(__file__)))
 
 CHECKS = {
 
+ 'C04': dict(
+   technique='differential runtime monitor on the real artefact: ChartToC output compiled (gcc -fsanitize=address,undefined,bounds and plain -O2, emitted sizing macros) and driven by a C scaffold with the same history as the interpreter; projected histories compared; sanitizer reports in the emitted step function',
+   text='Exploration: seeded random documents (+ documents padded to the byte boundaries of the sizing macros) are transpiled, compiled twice and executed; dequeued events, log lines with values, configuration after each micro step and final data must equal the interpreter trace; ASan/UBSan(bounds) watch the emitted code.',
+   note='Trusted: scaffold harness/genc_main.c (integer datamodel fragment, reference matcher), gcc sanitizers. Invoke only compiled, not executed.',
+   ref='DESIGN.md 3/C04'),
+ 'C05': dict(
+   technique='runtime oracle comparison on real transformer output: annotated DOM and the tables embedded in emitted C/Promela/VHDL parsed and compared with relations recomputed from the source document; transformers run under ASan/UBSan',
+   text='Exploration, exhaustive for family E (<=3 states): documentOrder/postFixOrder/parent/children/ancestors/completion/targets/exit sets/conflicts of every state and transition are recomputed independently and compared with all four embeddings, which must also agree with each other.',
+   note='Trusted: vf/tables.py oracle and parsers. Conflict relation expected = transpilers\' relation (same/ancestor-related sources or static exit sets intersect).',
+   ref='DESIGN.md 3/C05'),
+ 'C18': dict(
+   technique='execution of the emitted artefact by a boolean netlist evaluator: the combinational equations ChartToVHDL emits are evaluated for every legal configuration x event/spontaneous x condition valuation and compared with the reference step under the static conflict relation',
+   text='Exploration, exhaustive per document: all legal configurations x (events + spontaneous step) x 2^k condition valuations; intermediate signals (optimal transition set, exit set) and the next-state vector are compared with vf/refscxml.py (static_select/static_domain).',
+   note='Trusted: vf/vhdl_eval.py (three-valued fixpoint netlist interpreter, self-tested), reference step. No VHDL simulator is installed; the clocked part is not simulated.',
+   ref='DESIGN.md 3/C18'),
+
  'C01': dict(
    technique='history + executable reference model: every monitor callback, log line, step result and configuration of the real interpreter (ASan/UBSan build) compared step by step with an Appendix-D reference run on the same document and history; seeded random and exhaustively enumerated documents',
    text='Exploration: seeded random valid documents over the whole structural vocabulary, rendered for lua/promela/null, plus every document of the enumerated family E, each run compared step-by-step (exits, transitions, entries, content, events, done events, configuration, data) with an independent transcription of Appendix D. Decides the executions produced; known deviations are matched exactly against reference variants.',
